@@ -463,6 +463,7 @@ class Parser:
         self._int_constants[key] = val
 
     def _add_integer_constant(self, name, int_str):
+        orig = int_str
         int_str = int_str.lower().rstrip("ul")
         neg = int_str.startswith('-')
         if neg:
@@ -471,7 +472,10 @@ class Parser:
         if (int_str.startswith("0") and int_str != '0'
                 and not int_str.startswith("0x")):
             int_str = "0o" + int_str[1:]
-        pyvalue = int(int_str, 0)
+        try:
+            pyvalue = int(int_str, 0)
+        except ValueError:
+            raise CDefError("%s: invalid integer constant %r" % (name, orig))
         if neg:
             pyvalue = -pyvalue
         self._add_constants(name, pyvalue)
